@@ -13,7 +13,11 @@ use ruschm::interpreter::Interpreter;
 use serde_json::json;
 use std::process::Command;
 
-pub const BIN: &str = "/verif/target/repo-bin/debug/ruschm";
+pub const DEFAULT_BIN: &str = "/verif/target/repo-bin/debug/ruschm";
+/// the built ruschm binary (RUSCHM_BIN overrides the default: frozen copies for long runs)
+pub fn bin() -> String {
+    std::env::var("RUSCHM_BIN").unwrap_or_else(|_| DEFAULT_BIN.to_string())
+}
 
 /// (form text, fails?)
 pub const MENU: &[(&str, bool)] = &[
@@ -151,7 +155,7 @@ pub struct RunResult {
 }
 
 pub fn run_binary(file_arg: &str, cwd: &std::path::Path) -> Result<RunResult, String> {
-    let o = Command::new(BIN).arg(file_arg).current_dir(cwd).output().map_err(|e| format!("spawn: {}", e))?;
+    let o = Command::new(bin()).arg(file_arg).current_dir(cwd).output().map_err(|e| format!("spawn: {}", e))?;
     Ok(RunResult { stdout: String::from_utf8_lossy(&o.stdout).to_string(), stderr: strip_sgr(&String::from_utf8_lossy(&o.stderr)), code: o.status.code() })
 }
 
@@ -329,8 +333,8 @@ fn special_cases(acc: &mut Acc) {
 }
 
 pub fn run(ctx: &Ctx) -> i32 {
-    if !std::path::Path::new(BIN).exists() {
-        eprintln!("MACHINERY-ERROR: {} not built", BIN);
+    if !std::path::Path::new(&bin()).exists() {
+        eprintln!("MACHINERY-ERROR: {} not built", bin());
         return 2;
     }
     let max_forms = if ctx.thorough() { 4 } else { 3 };
